@@ -15,7 +15,8 @@ def gather(ctx, mode, tz="UTC", scale=1.0):
         jobs.append({"script": "d_timescale.py", "tz": tz, "stdin_obj": {
             "seed": ctx.seed * 4099 + k * 11 + len(mode), "mode": mode,
             "curated": {"stride": stride, "offset": (k * (stride // core.NCPU) + ctx.seed) % stride},
-            "random": int((2400 if quick else 48000) * scale) // core.NCPU}})
+            "random": int((2400 if quick else 48000) * scale) // core.NCPU,
+            "tiny": (int((2400 if quick else 48000) * scale) // core.NCPU) if mode == "map" else 0}})
     recs = []
     for out in core.run_drivers_parallel(jobs):
         recs += out["records"]
